@@ -717,11 +717,11 @@ func run(c *vm.Ctx) {
 	sess := &sessionServer{joined: map[string]string{}, ids: map[string]uuid.UUID{}}
 	http.DefaultClient.Transport = sess
 	r := c.Rand("sessions")
-	for i := 0; i < c.Scale(120, 4000); i++ {
+	for i := 0; i < c.Scale(480, 8000); i++ {
 		session(c, r, i, sess)
 	}
 	pr := c.Rand("ping")
-	for i := 0; i < c.Scale(40, 800); i++ {
+	for i := 0; i < c.Scale(80, 1600); i++ {
 		ping(c, pr)
 	}
 }
